@@ -75,6 +75,9 @@ func classes(cs ...string) map[string]bool {
 	return m
 }
 
+// Relevant is relevant, exported for the self-test.
+func (s *Spec) Relevant(vs []run.Violation) []run.Violation { return s.relevant(vs) }
+
 // relevant filters violations down to the property's own oracle clauses.
 func (s *Spec) relevant(vs []run.Violation) []run.Violation {
 	var out []run.Violation
@@ -92,7 +95,7 @@ func (s *Spec) relevant(vs []run.Violation) []run.Violation {
 // takes milliseconds; the slowest legitimate ones, with values of a megabyte,
 // a few seconds).  A run that is still executing nutsdb code after that is
 // reported as a violation of class "hang": some API call does not return.
-var RunTimeout = 60 * time.Second
+var RunTimeout = 120 * time.Second
 
 // OnHang, set by the worker command, receives the partial result of a worker
 // whose current run hangs inside nutsdb, writes it out and ends the process.
